@@ -124,42 +124,42 @@ def run(ctx):
     from rules.common import check_get_none_presence
     for name in ('redundant', 'unique_iter', 'bucketize'):
         check_get_none_presence(ctx, prog.func('%s.%s' % (M, name)))
-    # windowed_iter with fill: an exhausted tee must not stop the staggering of the *later* tees, i.e. StopIteration
-    # from next(t) is handled inside the per-tee advance loop
+    # windowed_iter with fill: an exhausted tee must not stop the staggering of the *later* tees.  Decided on paths (helpers
+    # inlined, next() may raise StopIteration): on every path that reaches zip_longest, a StopIteration caught while the tees
+    # are being advanced is followed by another step of the loop over the tees (the loop is not abandoned)
     wi = prog.func(M + '.windowed_iter')
-    par = {}
-    for n in ast.walk(wi.node):
-        for c in ast.iter_child_nodes(n):
-            par[c] = n
-    nexts = [n for n in ast.walk(wi.node) if isinstance(n, ast.Call) and call_name(n) == 'next']
-    if not nexts:
-        ctx.unknown('T9.tees', wi.fq, 'no next(tee) advance found', wi.loc)
-    zl = [n for n in ast.walk(wi.node) if isinstance(n, (ast.Return, ast.Assign)) and isinstance(n.value, ast.Call) and
-          'zip_longest' in call_name(n.value)]
-    if zl:
-        # the advance loop feeding zip_longest: the last `for ... in enumerate(tees)` before it
-        zp = par.get(zl[0])
-        blk = next((b for b in (getattr(zp, f, None) for f in ('body', 'orelse', 'finalbody')) if isinstance(b, list) and zl[0] in b), [])
-        TEES = {t.id for n in ast.walk(wi.node) if isinstance(n, ast.Assign) and isinstance(n.value, ast.Call) and
-                call_name(n.value) in ('itertools.tee', 'tee') for t in n.targets if isinstance(t, ast.Name)}
-        loops = [n for n in blk if isinstance(n, ast.For) and n.lineno < zl[0].lineno and
-                 any(isinstance(x, ast.Name) and x.id in TEES for x in ast.walk(n.iter))]
-        fill_loop = loops[-1] if loops else None
-        ok = False
-        det = 'no advance loop before zip_longest'
-        if fill_loop is not None:
-            inner_next = [n for n in nexts if any(a is fill_loop for a in _ancestors(par, n))]
-            ok = bool(inner_next)
-            for n in inner_next:
-                tr = [a for a in _ancestors(par, n) if isinstance(a, ast.Try)]
-                inside = tr and any(a is fill_loop for a in _ancestors(par, tr[0])) and \
-                    any(isinstance(h.type, ast.Name) and h.type.id == 'StopIteration' for h in tr[0].handlers)
-                ok = ok and bool(inside)
-            det = 'next() calls in the fill-branch advance loop: %d' % len(inner_next)
-        ctx.ob('T9.tees', wi.fq, 'with fill, StopIteration from advancing one tee is handled inside the per-tee loop (later tees are '
-               'still staggered)', ok, loc=loc(wi, fill_loop) if fill_loop is not None else wi.loc, detail=det)
+    TEES = {t.id for n in ast.walk(wi.node) if isinstance(n, ast.Assign) and isinstance(n.value, ast.Call) and
+            call_name(n.value) in ('itertools.tee', 'tee') for t in n.targets if isinstance(t, ast.Name)}
+    tee_loops = [n for n in ast.walk(wi.node) if isinstance(n, ast.For) and any(isinstance(x, ast.Name) and x.id in TEES for x in ast.walk(n.iter))]
+
+    class NextRaises(Quiet):
+        def call_raises(self, walker, op, st):
+            return ('StopIteration',) if call_name(op.val) == 'next' else ()
+
+        def inline(self, walker, op, callee, st):
+            from rules.locks import is_module_helper
+            return callee.cls is None and is_module_helper(op, callee)
+    wt_, tpaths = paths_of(prog, wi, model=NextRaises(prog))
+    n_fill = 0
+    bad = None
+    for p in tpaths:
+        zl = [o for o in p.ops if o.kind == 'call' and 'zip_longest' in call_name(o.val)]
+        if not zl:
+            continue
+        n_fill += 1
+        for i, o in enumerate(p.ops):
+            if o.kind == 'except' and o.info == 'StopIteration' and o.seq < zl[0].seq:
+                resumed = any(x.kind == 'iter_next' and any(x.node is tl for tl in tee_loops) and o.seq < x.seq < zl[0].seq for x in p.ops)
+                if not resumed and bad is None:
+                    bad = (p, o)
+    if not TEES or not tee_loops:
+        ctx.unknown('T9.tees', wi.fq, 'no tee(...) result / loop over the tees found', wi.loc)
+    elif n_fill == 0:
+        ctx.unknown('T9.tees', wi.fq, 'no path reaches zip_longest(...) (the fill form)', wi.loc)
     else:
-        ctx.unknown('T9.tees', wi.fq, 'no zip_longest(...) return found for the fill form', wi.loc)
+        ctx.ob('T9.tees', wi.fq, 'with fill, StopIteration from advancing one tee is handled inside the per-tee loop (later tees are '
+               'still staggered)', bad is None, loc=loc(wi, bad[1].node) if bad else wi.loc, path=bad[0].describe() if bad else None,
+               detail='%d paths reach zip_longest' % n_fill)
     # split_iter
     sp = prog.func(M + '.split_iter')
     # the split counter, by role: the local that is compared with the maxsplit parameter
